@@ -49,7 +49,15 @@ def roundTag (n es : Nat) (x : Rat) (r : Nat) : String :=
   if X ≥ posVal n es (maxposEnc n) then "clampmax"
   else if X ≤ posVal n es 1 then "clampmin"
   else match positVal n es r with
-    | some v => if v = x then "exact" else if (if v < 0 then -v else v) < X then "up-not-taken" else "rounded-up"
+    | some v =>
+      if v = x then "exact"
+      else
+        -- tie: x is exactly the (n+1)-bit midpoint next to r
+        let R := if r % 2 ^ n < 2 ^ (n - 1) then r % 2 ^ n else 2 ^ n - r % 2 ^ n
+        let av := if v < 0 then -v else v
+        let U := if av < X then R else R - 1
+        if posVal (n + 1) es (2 * U + 1) = X then (if av < X then "tie-down" else "tie-up")
+        else if av < X then "rounded-down" else "rounded-up"
     | none => "nar"
 
 
